@@ -197,7 +197,10 @@ namespace cnl {
             template<typename Rhs>
             [[nodiscard]] constexpr auto operator()(Rhs const& rhs) const
             {
-                return has_most_negative_number<Rhs>::value && rhs < -std::numeric_limits<Rhs>::max();
+                // the result has the promoted type of the operand
+                using result = op_result<minus_op, Rhs>;
+                return has_most_negative_number<result>::value
+                    && rhs < -std::numeric_limits<result>::max();
             }
         };
 
@@ -206,7 +209,8 @@ namespace cnl {
             template<typename Rhs>
             [[nodiscard]] constexpr auto operator()(Rhs const& rhs) const
             {
-                return !numbers::signedness_v<Rhs> && rhs;
+                using result = op_result<minus_op, Rhs>;
+                return !numbers::signedness_v<result> && rhs;
             }
         };
 #if defined(_MSC_VER)
